@@ -21,9 +21,6 @@
 char *xv_asprintf2(const char *fmt, const char *a);
 char *xv_asprintf3(const char *fmt, const char *a, const char *b);
 extern size_t xv_slist_n; extern const char *xv_slist_name_k, *xv_x509_host_k; extern long xv_hk, xv_x509_nhosts, xv_x509_add_calls, xv_slist_destroy_calls, xv_dns_valid_calls; extern const struct slist *xv_slist_destroyed;
-#ifdef XVU_PRE_TU
-XVU_PRE_TU
-#endif
 #include "xcm_tp_btls.c"
 #undef xcm_tp_socket_update
 #undef xcm_tp_socket_server
